@@ -1967,6 +1967,10 @@ class Processor:
                     data, parent, parentref, translated_path, ancestry,
                     peekseg)
 
+                # One match suffices; the caller evaluates the next segment
+                # against this node and would otherwise repeat its results.
+                break
+
             # Then, recurse into each child to perform the same test.
             if isinstance(data, dict):
                 for key, val in data.items():
